@@ -760,7 +760,7 @@ theorem encodeFields_keys (n : Nat) (sh : Bool) (vals : List (String × GoVal)) 
         have ho : (tagOptions f0.tag).contains "omitempty" = false ∧ (tagOptions f0.tag).contains "string" = false := by
           simp only [plainField, Bool.and_eq_true, Bool.not_eq_true'] at hplain
           exact ⟨hplain.1.1.1, hplain.1.1.2⟩
-        simp only [hk, hv, ho.1, ho.2, Bool.false_and, Bool.false_eq_true, if_false, List.mem_cons] at hp
+        simp only [hk, hv, quoteIf, ho.1, ho.2, Bool.false_and, Bool.false_eq_true, if_false, List.mem_cons] at hp
         rcases hp with rfl | hp
         · exact ⟨f0, by simp, hser, plain_key f0 hplain key hk⟩
         · obtain ⟨f, hf, h1, h2⟩ := ih p hp
@@ -823,7 +823,7 @@ theorem encodeFields_lookup (n : Nat) (sh : Bool) (vals : List (String × GoVal)
         simp only [serialised, List.filter_cons]
         simp [hk]
       rw [hser_cons, List.map_cons, List.nodup_cons] at hnd
-      simp only [hv0, ho.1, ho.2, Bool.false_and, Bool.false_eq_true, if_false]
+      simp only [hv0, quoteIf, ho.1, ho.2, Bool.false_and, Bool.false_eq_true, if_false]
       rcases List.mem_cons.mp hf with rfl | hf
       · rw [hv0] at hv
         cases hv
